@@ -47,6 +47,8 @@ func buildDoc(d fdDoc) *mocrelay.NIP11 {
 		kinds = []*mocrelay.Nip11Kind{{From: 40, To: 49}}
 	case "pair-equal":
 		kinds = []*mocrelay.Nip11Kind{{From: 7, To: 7}, {From: 0, To: 0}}
+	case "zero-bound":
+		kinds = []*mocrelay.Nip11Kind{{From: 7, To: 0}, {From: 0, To: 5}, {From: 0, To: 0}}
 	case "mixed":
 		kinds = []*mocrelay.Nip11Kind{{From: 0, To: 0}, {From: 40, To: 49}, {From: 30000, To: 39999}, {From: 5, To: 5}}
 	}
@@ -191,7 +193,8 @@ func C20(run *core.Run) {
 			rec := httptest.NewRecorder()
 			req := httptest.NewRequest("GET", "/", nil)
 			req.Header.Set("Accept", "application/nostr+json")
-			(&mocrelay.ServeMux{NIP11: doc}).ServeHTTP(rec, req)
+			mux := &mocrelay.ServeMux{NIP11: doc}
+			mux.ServeHTTP(rec, req)
 			var served mocrelay.NIP11
 			if err := json.Unmarshal(rec.Body.Bytes(), &served); err != nil || !reflect.DeepEqual(doc, &served) ||
 				rec.Header().Get("Content-Type") != "application/nostr+json" || rec.Header().Get("Access-Control-Allow-Origin") != "*" {
@@ -201,10 +204,19 @@ func C20(run *core.Run) {
 			doc.Name = doc.Name + " (renamed)"
 			doc.SupportedNIPs = append(doc.SupportedNIPs, 99)
 			rec2 := httptest.NewRecorder()
-			(&mocrelay.ServeMux{NIP11: doc}).ServeHTTP(rec2, req)
+			mux.ServeHTTP(rec2, req) // the same mux
 			var served2 mocrelay.NIP11
 			if err := json.Unmarshal(rec2.Body.Bytes(), &served2); err != nil || !reflect.DeepEqual(doc, &served2) {
 				run.Violate("doc:served-stale-after-config-change", fmt.Sprintf("after changing the configured document the served one is %s", rec2.Body.String()), map[string]any{"doc": d})
+			}
+			// ... and after replacing the document of the mux
+			other := buildDoc(fdDoc{Fields: []string{"name", "version"}, Kinds: "none"})
+			mux.NIP11 = other
+			rec3 := httptest.NewRecorder()
+			mux.ServeHTTP(rec3, req)
+			var served3 mocrelay.NIP11
+			if err := json.Unmarshal(rec3.Body.Bytes(), &served3); err != nil || !reflect.DeepEqual(other, &served3) {
+				run.Violate("doc:served-stale-after-config-change", fmt.Sprintf("after replacing the mux's document the served one is %s", rec3.Body.String()), map[string]any{"doc": d})
 			}
 		}
 		if i == 3 {
